@@ -9,7 +9,7 @@ The same harness code runs in two modes:
   * ``conc`` - inputs are floats taken from a replay file, pyPRISM is *not* patched, claims are
                evaluated numerically with a stated tolerance (replay of a counterexample).
 """
-import z3, numpy as _np, fractions, itertools, math, time, hashlib
+import z3, numpy as _np, fractions, itertools, math, time, hashlib, sys
 
 Fraction = fractions.Fraction
 
@@ -49,7 +49,7 @@ class Ctx:
         self.fresh = itertools.count()
         self.sin_exact = 0           # >0: link sin(t) to exact values for t = pi*p/q <= sin_exact*pi (C07/C08 oracles)
         self.exp_underflow = False   # IEEE fact exp(t)=0 for t<=-746 (switched on by C03 harnesses)
-        self.feas_timeout = 20000
+        self.feas_timeout = 8000
 
     def base(self):
         return self.assumes + self.side + self.axioms + self.pc
@@ -404,6 +404,11 @@ class SR:
         return str(z3.simplify(self.term()))
 
 
+# (file suffix, function): comparisons evaluated directly in these frames only feed warnings.warn (which is a
+# no-op stub); they are answered False without forking. PRISM.solve: "if np.any(H<-(1.0+tol)): warn(...)".
+DONTCARE_FRAMES = [('pyPRISM/core/PRISM.py', 'solve')]
+
+
 class SB:
     """Symbolic boolean; bool() forks."""
     __slots__ = ('e',)
@@ -412,6 +417,12 @@ class SB:
         self.e = e
 
     def __bool__(self):
+        f = sys._getframe(1)
+        for suffix, fn in DONTCARE_FRAMES:
+            if f.f_code.co_name == fn and f.f_code.co_filename.endswith(suffix):
+                # logging / warning-only branch of the code under test: not explored (environment stub)
+                Ctx.cur.stats['dontcare'] = Ctx.cur.stats.get('dontcare', 0) + 1
+                return False
         return Ctx.cur.decide(self.e)
 
     @staticmethod
@@ -614,8 +625,13 @@ def eqc(a, b):
     """z3 Bool: a == b by cross-multiplication."""
     a = SR.lift(a)
     b = SR.lift(b)
-    return z3.simplify(a.n * b.d == b.n * a.d) if (is_const(a.n) and is_const(b.n) and is_const(a.d) and is_const(b.d)) \
-        else a.n * b.d == b.n * a.d
+    if is_const(a.n) and is_const(b.n) and is_const(a.d) and is_const(b.d):
+        return z3.simplify(a.n * b.d == b.n * a.d)
+    if z3.eq(a.n, b.n) and z3.eq(a.d, b.d):
+        return z3.BoolVal(True)
+    # written as "difference == 0": z3 then normalises ONE polynomial (a valid identity becomes 0 == 0 in
+    # preprocessing); "lhs == rhs" with two large sides goes to nlsat and can take minutes
+    return (a.n * b.d - b.n * a.d) == 0
 
 
 def is_symbolic(a):
